@@ -127,11 +127,15 @@ def interesting(exp):
     cross = exp["cross"]
     nz = sum(1 for s in cross for b in s for i, row in enumerate(b) for j, v in enumerate(row) if v and i != j)
     raddiff = sum(abs(a - b) for a, b in zip(exp["rad1"], exp["rad2"]))
-    return nz * 3 + raddiff + (len(exp["linked"]) < len(exp["rad1"]) ** 2)
+    return nz * 3 + raddiff + (len(exp["linked"]) < len(exp["rad1"]) ** 2) + (50 if exp.get("critical") else 0)
 
 
 def pick(scen, n, rng):
-    scen = sorted(scen, key=lambda e: -interesting(e))
+    """half of the sample: scenarios that are critical for the pruning / richest in cross-patch counts
+    (random among equals), the other half uniformly random"""
+    scen = list(scen)
+    rng.shuffle(scen)
+    scen.sort(key=lambda e: -interesting(e))
     top = scen[: n // 2]
     rest = scen[n // 2 :]
     return top + rng.sample(rest, min(len(rest), n - len(top)))
